@@ -16,9 +16,9 @@ from engines import cassettes as C
 PROP = 'C05'
 SAMPLING = [('rate1', 1.0, None), ('rate0', 0.0, 0.5), ('frac_in', 0.5, 0.1), ('frac_out', 0.5, 0.9)]
 KINDS_IN = ['key_unbuildable', 'handler_raises', 'discard_in_body', 'interrupt_in_body', 'discard_before', 'raise_before',
-            'interrupt_before', 'force_before', 'fallback_raises', 'resolver_raises']
+            'interrupt_before', 'force_before', 'fallback_raises', 'resolver_raises', 'disable_in_body', 'disable_in_body_handler_raises']
 KINDS_OUT = ['handler_raises', 'discard_in_body', 'interrupt_in_body', 'discard_before', 'raise_before', 'interrupt_before',
-             'force_before']
+             'force_before', 'disable_in_body', 'disable_in_body_handler_raises']
 
 META = {
     'engine': 'recplay',
@@ -72,6 +72,10 @@ def _run(tape, clock):
         st = io[pos2 % len(io)]
         kinds = KINDS_IN if st[0] == 'in' else KINDS_OUT
         placed.append(R.place_fault(spec, st, kinds[kind2 % len(kinds)], run))
+    if tape.draw(8) == 7:
+        # recording is switched off mid-operation (a kill switch): interceptions after it cannot be captured
+        spec.body.insert(tape.draw(len(spec.body) + 1), ['disable'])
+        placed.append('disable')
     store = C.gen_store(tape, clock)
     for line in spec.describe():
         run.say(line)
@@ -98,6 +102,12 @@ def _run(tape, clock):
         # ---- saved only if allowed by the model
         f = run.faults
         discarded = any(f.get(k) for k in ('key_unbuildable', 'handler_raises', 'discard', 'discard_in_body', 'fallback_raises', 'resolver_raises'))
+        if rec.svc.disabled_at is not None and rec.svc.calls_begun > rec.svc.disabled_at:
+            # an interception took place while recording was switched off: it was not captured, the recording is not whole
+            discarded = True
+            run.probe('interception_after_recording_was_switched_off')
+        elif f.get('disable') or f.get('disable_in_body'):
+            run.probe('recording_switched_off_without_later_interception')
         if f.get('discard_in_extractor'):
             run.probe('discard_requested_during_finalisation')
         forced = (f.get('force_sample') or f.get('force_in_body')) and not ignore_forced
